@@ -23,6 +23,9 @@ pub struct Trace {
     pub tags: Vec<String>,
     pub lines: Vec<String>,
     pub steps: usize,
+    // connections whose user changed nick during the case, and the nicks involved
+    pub renamed_conns: BTreeSet<usize>,
+    pub renamed_nicks: BTreeSet<String>,
 }
 
 impl Trace {
@@ -39,7 +42,7 @@ pub struct MbSpec {
     pub ncfg: usize,
     pub max_ops: usize,
     pub build: fn(&[u16]) -> Built,
-    pub owns: fn(&Disc, &StepOut) -> bool,
+    pub owns: fn(&Disc, &StepOut, &Trace) -> bool,
     // probes after each op: 0 = none, 1 = actor + one rotating viewer, 2 = everybody
     pub probe_level: u8,
     pub nontrivial: fn(&Trace) -> Option<String>,
@@ -68,7 +71,18 @@ fn handle(
         st.count("steps_unpredicted");
     }
     st.add("detached_task_panics", out.detached_panics as u64);
-    let pol = Policy { id: spec.id, owns: &spec.owns };
+    if out.exp.has_tag("nick:changed") {
+        if let Some(a) = out.actor {
+            trace.renamed_conns.insert(a);
+        }
+        if let Some(n) = out.sent.split(' ').nth(1) {
+            trace.renamed_nicks.insert(n.to_string());
+        }
+    }
+    let owns_fn = spec.owns;
+    let tr: &Trace = trace;
+    let owns_closure = move |d: &Disc, o: &StepOut| owns_fn(d, o, tr);
+    let pol = Policy { id: spec.id, owns: &owns_closure };
     match judge(&pol, eng, out) {
         Verdict::Ok => Ok(true),
         Verdict::Violation(v) => Err(v),
